@@ -116,7 +116,9 @@ func (s *Service) Start(ctx context.Context) error {
 		return ErrServiceAlreadyStarted
 	}
 
+	started := false
 	s.doStart.Do(func() {
+		started = true
 		defer s.isStarted.Store(true)
 		ec := &s.ec
 		ehSignal := make(chan struct{})
@@ -181,6 +183,14 @@ func (s *Service) Start(ctx context.Context) error {
 			ec.Add(s.Run(ctx))
 		}()
 	})
+
+	if !started {
+		// the service was started earlier and finished between
+		// the two checks above: the flag this call just set
+		// does not describe a running service.
+		s.isRunning.Store(false)
+		return ErrServiceReturned
+	}
 
 	return nil
 }
